@@ -5,7 +5,7 @@ from regpcommon import *
 
 META = dict(
     engine='Regp.tla',
-    technique='TLA+ spec Regp.tla (BackendCall: the one access a valid request causes; ReplyFor: the response the document prescribes for each backend verdict); regp_recv + regp_process of the real library are driven with every request kind x addresses x block sizes x payloads x sequence numbers x all 12 backend verdicts x both transports x both memory word sizes (incl. word-size mismatch, responses and meta messages as input), and TLC validates each recorded run: backend call log, exact reply octets, allocator ledger',
+    technique='TLA+ spec RegpOps.tla / RegpReqMC.tla (TLC enumerates well-formed requests x 12 backend verdicts x transports x word sizes, checks C06Holds - one access iff word size matches, one matching reply echoing sequence number and address, datum where prescribed - on the prescribed outcome of each, and emits every case for replay on the real library) and Regp.tla (BackendCall: the one access a valid request causes; ReplyFor: the response the document prescribes for each backend verdict); regp_recv + regp_process of the real library are driven with every request kind x addresses x block sizes x payloads x sequence numbers x all 12 backend verdicts x both transports x both memory word sizes (incl. word-size mismatch, responses and meta messages as input), and TLC validates each recorded run: backend call log, exact reply octets, allocator ledger',
     level='Each recorded run (one framed request arriving, receive, process, free) is validated by TLC against the specification: exactly one backend access with the request-s address, block size and exactly the received payload; exactly one reply whose octets are those of the prescribed response (acknowledgement with exactly the delivered words / no payload for writes; error response in octet semantics with the reported address or the buffer size as big-endian 32-bit payload where the document prescribes one; sequence number and address echoed); word-size mismatch answered without touching memory; responses and meta messages cause neither access nor reply.',
     note='Trusted: TLC, harness/regp.c (recording backend, sink, ledger allocator), my reading of doc/regp.txt in Regp.tla. Each run uses a fresh protocol instance (the responder keeps no state between requests). Read requests larger than the receive block are the subject of C09.',
 )
@@ -64,6 +64,16 @@ def run(tier):
     v = vf.Verdict('C06', tier)
     vf.build()
     quick = tier != 'thorough'
+    cases = []
+    r0 = vf.tlc_must_pass('RegpReqMC.tla', 'RegpReqMCq.cfg' if quick else 'RegpReqMC.cfg', 'regpreq', heap='16g',
+                          sink=lambda b: cases.append(b[3:]) if b.startswith('C;;') else None)
+    v.add_tlc(r0)
+    res1 = vf.run_scripts('regp', [cases[i:i + 500] for i in range(0, len(cases), 500)], 'C06', name='rqc')
+    v.exec_problems(res1, 'regp')
+    v.cov['traces_validated_against_impl'] += len(cases)
+    v.cov['evaluations'] += res1.checked
+    v.cov['samples'].append(dict(kind='E1 case from TLC (RegpReqMC.tla): rx call | allowed observations', events=cases[1000:1002]))
+    v.notes['e0_e1'] = dict(model='RegpReqMC.tla', cases=len(cases), invariant='C06Holds')
     rnd = random.Random(vf.seed())
     ss = list(scripts(rnd, quick))
     vf.trace_flow(v, 'RegpTrace.tla', 'RegpTrace.cfg', 'regp', ss, 'req')
